@@ -563,4 +563,45 @@ set_option maxRecDepth 100000 in
 example : actC ((restoreL toyH .latest {} (positions exT) [true, true, true, true, true, true, true]).get
     (hash toyH (.leaf [0xaa]))) = 2 := by decide
 
+/-! ## 9. state jump (state sync + `Module.JumpToState`)
+
+`Op.jump idx t` is a step of the history machine: the storage is cleaned, the trie `t` of the sync
+point is restored node by node and installed as the live trie IN THE MODULE'S OWN MODE
+(module.go:236). `latest_exact`, `gc_mode_exact`, `retained_nodes_present`, `gc_safe`,
+`stale_root_fails_clean`, `lazy_refines_expanded` quantify over histories containing it: after a jump
+the retained heights are the sync point and everything after it. -/
+
+/-- C11.9 the jump through the MemCachedStore layers (`CleanStorage`, then `RestoreHashNode` for every
+position with any persists in between) shows exactly the single-store model's state after `jump`:
+count = occurrences of the restored trie for every hash. -/
+theorem jump_layered_exact (H : Bytes → Bytes) (s : St) (hrc : s.mode.rc = true) (l : Lay) (idx : Nat) (t : Node)
+    (sched : List Bool) (h : Bytes) :
+    (jumpLay H s.mode l t sched).get h = sget (jumpSt H s idx t).store h ∧
+    actC ((jumpLay H s.mode l t sched).get h) = occH H t h := by
+  have hr := rep_jump H s l idx t sched h
+  refine ⟨hr, ?_⟩
+  rw [hr]
+  exact (restore_exact H s.mode hrc t).1 h
+
+-- non-vacuity (ModeGC): blocks 0-1, a jump to the trie {12↦aa, 34↦bb, 56↦aa} at height 5, block 6
+-- deletes 12 (its nodes must be marked inactive at 6, not deleted), GC(5), block 7
+def jumpOps : List Op :=
+  [.block 0 [.put [7,7] [0xee]], .block 1 [.put [1,2] [0xaa]],
+   .jump 5 (put (put (put .empty [1,2] [0xaa]) [3,4] [0xbb]) [5,6] [0xaa]),
+   .block 6 [.del [1,2]], .gc 5, .blockL 7 [.put [1,2] [0xcc]] [[hash toyH (.leaf [0xbb])]]]
+
+example : Heights none jumpOps := by simp [jumpOps, Heights]
+
+-- the retained heights are 5, 6, 7; the root of 5 still reads 12 ↦ aa after block 6 deleted it
+set_option maxRecDepth 100000 in
+example : ((runOps toyH { mode := .gc } jumpOps).map fun s =>
+    (s.hist.map (·.1), s.hist.map fun e => swalk s.store 10 (hash toyH e.2) [1,2])) =
+    some ([7, 6, 5], [.found [0xcc], .notFound, .found [0xaa]]) := by decide
+
+example : ∃ s, runOps toyH { mode := .gc } jumpOps = some s ∧
+    (∀ h, activeCnt s.store h = occH toyH s.root h) ∧
+    (∀ h c, sget s.store h = some c → (∃ b n, c = .rc b true n ∧ 0 < n) ∨ (∃ b k, c = .rc b false k)) ∧
+    (∀ e ∈ s.hist, s.gcAt ≤ e.1 → Kept toyH s.store e.2 e.1) :=
+  gc_mode_exact toyH jumpOps (by simp [jumpOps, Heights])
+
 end NeoModel.C11
